@@ -1,7 +1,7 @@
 #!/bin/bash
 # usage: tools/runall.sh [quick|thorough]  — runs every registered check sequentially, prints one line each
 tier=${1:-quick}
-cd /verif
+cd "$(dirname "$(readlink -f "$0")")/.."      # the tree this script belongs to (a vp-run snapshot runs its own copy)
 rc=0
 for p in $(python3 -c "import json; print(' '.join(c['property_id'] for c in json.load(open('MANIFEST.json'))['checks']))"); do
   s=$(date +%s)
